@@ -1116,7 +1116,9 @@ class DecayModelAliasReplacement(Transformer):  # type: ignore[misc]
                 f"Decay model or ModelAlias {t.value} is not defined. Please load the decay model with "
                 "``load_additional_decay_models`` or define a ModelAlias in the decayfile."
             )
-        return self.define_defs[t.value]
+        # A fresh copy for every use: the parameter values of the replacement
+        # are later modified in place, decay mode by decay mode
+        return copy.deepcopy(self.define_defs[t.value])
 
     def model(self, treelist: list[Tree]) -> Tree:
         """
